@@ -27,6 +27,7 @@ RULES = {
     'R5': 'PANICS(REACH(maybe_process_response)) in workspace code ⊆ reviewed allow-list',
     'R6': 'the block validator insert_block relies on enforces the body checks (= C12.R1-R3)',
     'R7': 'the header validator enforces the timestamp rules: median of up to 11 predecessors, 2h future bound at the current time (= C11.R1-R6)',
+    'R8': 'stable headers the validator walks back over are stored before ingestion starts, independent of slicing (= C03.R2, C08.R6)',
 }
 ASSUMPTIONS = ['transaction-valid blocks (the property\'s stated domain): insert_outpoints\' expect on a missing input is outside the domain']
 SS = 'ic_btc_canister::state::SyncingState'
@@ -102,6 +103,7 @@ def rest(ctx):
                                                    'ic_btc_canister::blocktree::BlockTree::extend_with_metrics'],
                     {'ic_btc_canister::unstable_blocks::push', 'ic_btc_canister::blocktree::BlockTree::extend*', 'ic_btc_canister::blocktree::extend*',
                      'ic_btc_canister::blocktree::BlockTree::*'})
+    dup_check(ctx)
     r2_outpoints(ctx)
     r3(ctx)
     r4(ctx)
@@ -116,6 +118,38 @@ def rest(ctx):
     # median of its (up to) 11 predecessors or more than 2h ahead of the current time (shared with C11)
     from rules import c11
     c11.run(SubCtx(ctx, {'R%d' % i: 'R7' for i in range(1, 7)}))
+    # R8: header validation of the next block walks back over stable headers: the header of every
+    # stabilised block is stored, on the fresh path and on the resumed (time-sliced) path alike, before
+    # its ingestion starts (shared with C03.R2 / C08.R6) — otherwise the next valid block traps the
+    # heartbeat ("previous header should be in the header store")
+    from rules import c03, c08
+    c03.r2(SubCtx(ctx, {'R2': 'R8'}))
+    c08.r6(SubCtx(ctx, {'R6': 'R8'}))
+
+
+def dup_check(ctx, rule='R1'):
+    """"not already present": ValidationContext::new refuses a block whose hash equals that of ANY
+    block already attached to the same parent (all successors of the parent, not a sample of them)"""
+    prog = ctx.prog
+    f = ctx.fn(rule, 'ic_btc_canister::validation::ValidationContext::new')
+    if not f:
+        return
+    rows = table(prog, f)
+    SUCC = P.has(P.call('ic_btc_canister::unstable_blocks::get_chain_with_tip', P.anything, P.anything))
+    ANY = lambda e: isinstance(e, tuple) and e[0] == 'call' and e[1].endswith('::any') and len(e[2]) == 2 and P.call('core::slice::iter', SUCC)(e[2][0])
+    ok_rows = [r for r in rows if P.agg(variant='Ok')(r[1])]
+    dup_rows = [r for r in rows if P.agg(variant='Err', _0=P.agg(variant='AlreadyKnown'))(r[1])]
+    good = len(ok_rows) == 1 and any(P.not_(ANY)(c) for c in ok_rows[0][2]) and len(dup_rows) == 1 and any(ANY(c) for c in dup_rows[0][2])
+    # the predicate compares each successor's hash with the offered block's hash
+    pred_ok = False
+    for k in prog.children(f):
+        r = ex(prog, k).local(0)
+        if P.binop('Eq', P.call('*::block_hash', P.param()), P.anything)(r) or P.binop('Eq', P.anything, P.call('*::block_hash', P.param()))(r):
+            src = [x for x in walk(r) if isinstance(x, tuple) and x[0] == 'upvar']
+            pred_ok = pred_ok or any(P.captured(ex(prog, k), P.has(P.call('*::block_hash', P.param('header'))))(x) for x in src)
+    ctx.check(good and pred_ok, rule, 'duplicate-check-all-successors', f,
+              'AlreadyKnown iff any successor of the parent has the offered block\'s hash; Ok only if none has',
+              'the duplicate check does not cover every block already attached to the parent (rows: %s)' % describe_table(ok_rows + dup_rows))
 
 
 def r2_outpoints(ctx):
